@@ -114,6 +114,27 @@ def run(ctx, rep):
         c07.r_tailpick(sh, rep)
 
     rep.guarded("R07-TAILPICK", tailpick)
+    rep.rule("R07-SEED", "decision-tree matrices receive every clause row that can match their case, in source order (shared with C07)", floor=8)
+
+    def seed():
+        from . import c07
+        c07.r_seed(sh, rep)
+
+    rep.guarded("R07-SEED", seed)
+    rep.rule("R07-LEAFARGS", "pattern variables of a clause reached through several decision-tree branches are bound to their own sub-values on every path (shared with C07)", floor=1)
+
+    def leafargs():
+        from . import c07
+        c07.r_leafargs(sh, rep)
+
+    rep.guarded("R07-LEAFARGS", leafargs)
+    rep.rule("R09-CACHE", "a module constant is compiled once and found again under its own (module, name) key only (shared with C09)", floor=4)
+
+    def cache():
+        from . import c09
+        c09.r_cache(ctx.flow, sh, rep)
+
+    rep.guarded("R09-CACHE", cache)
     rep.rule("R01-TYPEKEY", "decoder-cache keys (push_type_identity) start with a tag that is unique per type constructor", floor=4)
     rep.guarded("R01-TYPEKEY", lambda: r_typekey(sh, rep))
 
